@@ -425,6 +425,13 @@ func propC12(c *Ctx) {
 						if isSelectedOf(col) {
 							overSel = true
 						}
+						// the column definitions: one per selected input and one per block field (built that way and
+						// nowhere else); counting over them counts both kinds when the test looks at both members
+						if _, ch := fieldChain(col); len(ch) > 0 && ch[len(ch)-1] == w.FieldMaybe("dig", "Integration", "coldefs") {
+							if coldefsCoverBoth(w) && consultsBothFilters(w, cal) {
+								overSel, overBlock = true, true
+							}
+						}
 						if _, ch := fieldChain(col); len(ch) > 0 && ch[len(ch)-1] == w.Field("dig", "Integration", "Block") {
 							overBlock = true
 						}
@@ -1089,4 +1096,111 @@ func globalBoolSet(g *ssa.Global) (map[string]bool, bool) {
 		}
 	})
 	return out, ok && len(out) > 0
+}
+
+// coldefsCoverBoth: every store into Integration.coldefs appends one literal, inside a loop, whose Input member
+// is the element of Event.Selected() the loop is at (BlockData unset), or whose BlockData member is the element
+// of Integration.Block the loop is at (Input unset); both kinds occur.
+func coldefsCoverBoth(w *World) bool {
+	fCol := w.FieldMaybe("dig", "Integration", "coldefs")
+	fIn := w.FieldMaybe("dig", "coldef", "Input")
+	fBD := w.FieldMaybe("dig", "coldef", "BlockData")
+	fBlock := w.Field("dig", "Integration", "Block")
+	if fCol == nil || fIn == nil || fBD == nil {
+		return false
+	}
+	idxOf := func(f *types.Var) int {
+		st := w.Named("dig", "coldef").Underlying().(*types.Struct)
+		for i := 0; i < st.NumFields(); i++ {
+			if st.Field(i) == f {
+				return i
+			}
+		}
+		return -1
+	}
+	iIn, iBD := idxOf(fIn), idxOf(fBD)
+	sel, blk, bad := false, false, false
+	for _, fn := range w.RepoFuncs() {
+		allInstrs(fn, func(in ssa.Instruction) {
+			st, ok := in.(*ssa.Store)
+			if !ok {
+				return
+			}
+			if f, _ := fieldOf(st.Addr); f != fCol {
+				return
+			}
+			elems := appendedValues(st.Val)
+			if len(elems) != 1 {
+				bad = true
+				return
+			}
+			u, isU := stripConv(elems[0]).(*ssa.UnOp)
+			if !isU {
+				bad = true
+				return
+			}
+			al, isAl := u.X.(*ssa.Alloc)
+			if !isAl {
+				bad = true
+				return
+			}
+			inV, nIn, _ := litField(al, iIn)
+			bdV, nBD, _ := litField(al, iBD)
+			switch {
+			case nIn == 1 && nBD == 0:
+				if sl, idx, isE := elemOf(inV); isE && isInduction(idx) && isSelectedOf(stripConv(sl)) {
+					sel = true
+				} else {
+					bad = true
+				}
+			case nBD == 1 && nIn == 0:
+				sl, idx, isE := elemOf(bdV)
+				_, ch := fieldChain(stripConv(sl))
+				if isE && isInduction(idx) && len(ch) > 0 && ch[len(ch)-1] == fBlock {
+					blk = true
+				} else {
+					bad = true
+				}
+			default:
+				bad = true
+			}
+		})
+	}
+	return sel && blk && !bad
+}
+
+// consultsBothFilters: the counting helper (with what it calls, two levels) reads the filter of a column
+// definition through its Input member and through its BlockData member.
+func consultsBothFilters(w *World, cal *ssa.Function) bool {
+	fIn := w.FieldMaybe("dig", "coldef", "Input")
+	fBD := w.FieldMaybe("dig", "coldef", "BlockData")
+	viaIn, viaBD := false, false
+	seen := map[*ssa.Function]bool{}
+	var visit func(f *ssa.Function, d int)
+	visit = func(f *ssa.Function, d int) {
+		if f == nil || seen[f] || d > 2 || f.Blocks == nil || !isRepoFunc(f) {
+			return
+		}
+		seen[f] = true
+		allInstrs(f, func(in ssa.Instruction) {
+			if v, ok := in.(ssa.Value); ok {
+				_, ch := fieldChain(v)
+				for i := 0; i+1 < len(ch); i++ {
+					if repoNamedIs(ch[i+1].Type(), "dig", "Filter") {
+						if ch[i] == fIn {
+							viaIn = true
+						}
+						if ch[i] == fBD {
+							viaBD = true
+						}
+					}
+				}
+			}
+			if call, ok := in.(*ssa.Call); ok {
+				visit(staticCallee(call), d+1)
+			}
+		})
+	}
+	visit(cal, 0)
+	return viaIn && viaBD
 }
